@@ -9,7 +9,10 @@ INTS = [0, 1, -1, 2, -2, 3, -3, 4, 5, -5, 10, -10, 11, -11, 69, 70, 71, -70, -71
 BAD_INTS = [b"", b"abc", b"1.5", b"9223372036854775808", b"-9223372036854775809", b" 1", b"1 ", b"0x10", b"--1", b"99999999999999999999"]
 ELEMS = [b"a", b"b", b"c", b"a", b"", b"\r\n", b"x" * 70, b"1", b"-1"]
 FIELDS = [b"f1", b"f2", b"f3", b"", b"\xff"]
-PATTERNS = [b"*", b"k*", b"k?", b"[kl]*", b"?", b"*1", b"k[1-2]", b"\\k1", b"miss", b"", b"k[^1]", b"**", b"*\x00"]
+PATTERNS = [b"*", b"k*", b"k?", b"[kl]*", b"?", b"*1", b"k[1-2]", b"\\k1", b"miss", b"", b"k[^1]", b"**", b"*\x00",
+            # patterns whose match needs the star to be extended after a partial match of what follows it
+            b"*ab", b"*ssip*", b"a*b*b", b"*foo", b"*b\xffz", b"x*oo", b"*a?b", b"*[a-b]b"]
+GLOB_KEYS = [b"aab", b"abab", b"mississippi", b"xfofoo", b"b\xff\xffz", b"axb"]
 TTLS = [b"100", b"1000", b"100000"]
 
 
@@ -58,7 +61,10 @@ class Gen:
         out.append([b"ZADD", b"z", b"1", b"m"])
         out.append([b"XADD", b"x", b"1-1", b"f", b"v"])
         r.shuffle(out)
-        return out[:r.range(3, len(out))]
+        out = out[:r.range(3, len(out))]
+        if "KEYS" in self.vocab and r.chance(1, 2):
+            out += [[b"SET", k, b"g"] for k in GLOB_KEYS if r.chance(2, 3)]
+        return out
 
     def command(self):
         r = self.r
@@ -173,8 +179,9 @@ class Gen:
     def g_sismember(self): return [self.key(), self.elem()]
     def g_scard(self): return [self.key()]
     def setkeys(self):
-        ks = [self.r.choice([b"s", b"s2", b"s", b"s2", b"miss", b"k1"]) for _ in range(self.r.range(1, 3))]
-        self.last_shape = "".join("w" if k == b"k1" else ("m" if k == b"miss" else "s") for k in ks)
+        # `nokey` is never created by any generator: a key that is missing for certain
+        ks = [self.r.choice([b"s", b"s2", b"s", b"s2", b"miss", b"nokey", b"nokey", b"k1"]) for _ in range(self.r.range(1, 3))]
+        self.last_shape = "".join("w" if k == b"k1" else ("m" if k in (b"miss", b"nokey") else "s") for k in ks)
         return ks
     def g_sunion(self): return self.setkeys()
     def g_sinter(self): return self.setkeys()
